@@ -15,6 +15,48 @@ import GoZero.C13.Model
 namespace GoZero.C13.Spec
 open GoZero.C13
 
+/-! ### the abstract registry: a function `key ↦ value` (this is what the theorems are stated against) -/
+
+abbrev Reg := Nat → Option Nat
+
+namespace Reg
+def empty : Reg := fun _ => none
+/-- key `k` is registered with value `v` (new key, or updated in place, or the same registration again) -/
+def put (r : Reg) (k v : Nat) : Reg := fun k' => if k' = k then some v else r k'
+def del (r : Reg) (k : Nat) : Reg := fun k' => if k' = k then none else r k'
+/-- a full re-read: the registry is what the snapshot says (a repeated key: the last entry) -/
+def ofSnapshot (kvs : List (Nat × Nat)) : Reg := kvs.foldl (fun r kv => r.put kv.1 kv.2) empty
+def apply (r : Reg) : Ev → Reg
+  | .put k v => r.put k v
+  | .del k => r.del k
+  | .reload kvs _ _ => ofSnapshot kvs
+/-- the registry after a history of events -/
+def run (evs : List Ev) : Reg := evs.foldl apply empty
+/-- some registered key carries `v` -/
+def Shows (r : Reg) (v : Nat) : Prop := ∃ k, r k = some v
+/-- exclusive subscriber: registering `(k, v)` makes `k` the only counting key of `v` -/
+def exPut (r : Reg) (k v : Nat) : Reg :=
+  fun k' => if k' = k then some v else if r k' = some v then none else r k'
+/-- what one listener-level event does to the registrations a subscriber counts -/
+def applyL (excl : Bool) (r : Reg) : LEv → Reg
+  | .add k v => if excl then r.exPut k v else r.put k v
+  | .del k => r.del k
+/-- the registrations an exclusive subscriber counts after a history: the listener events of the history, in
+the order the registry delivered them, each new registration displacing the older keys of its value -/
+def counting (evs : List Ev) : Reg := (evs.flatMap emit).foldl (applyL true) empty
+end Reg
+
+/-- the Kubernetes endpoints handler: the current address set of the watched Endpoints object (as a list read
+as a set): an added object contributes its addresses, a deleted one takes its addresses away, an update / the
+initial `Update` replaces the set; an update that does not change the resource version is ignored. -/
+def kubeSet (cur : List Nat) : KEv → List Nat
+  | .add ips => cur ++ ips
+  | .del ips => cur.filter (fun x => !ips.contains x)
+  | .update same ips => if same then cur else ips
+  | .set ips => ips
+
+/-! ### the same, executable (association lists) — used by the monitor in the driver -/
+
 /-- the registry after an event (a snapshot replaces everything; a repeated key in a snapshot: last wins) -/
 def apply (reg : Map Nat) : Ev → Map Nat
   | .put k v => reg.set k v
